@@ -119,7 +119,8 @@ class C19Groundwater(Monitor):
                 i = int(np.argmax(over))
                 ctx.violate("capillary-rise-cap", t, observed={"comp": i, "after": float(cra[i]), "before": float(thb[i])}, expected={"le": float(max(thb[i], adjb[i]))})
         # compartments whose centre lies at or below the table are saturated at the end of the day
-        below = g.zmid >= zgw - 1e-12 if zgw >= 0 else np.zeros(g.ncomp, dtype=bool)
+        # (a centre within 1e-9 m of the table is not judged either way: the depth of the day is an interpolated float)
+        below = g.zmid > zgw + 1e-9 if zgw >= 0 else np.zeros(g.ncomp, dtype=bool)
         if below.any():
             ctx.hit("table_inside_profile_day")
             unsat = below & (post.th_end < g.th_s - REL)
